@@ -126,3 +126,175 @@ def raise_discipline(ctx, unit_qualnames, want='MatchError', also_ok=()):
                     ctx.ob(okt, u, 'a failed type rule raises TypeMatchError: %s' % src(r, 70),
                            '' if okt else 'isinstance rule rejected with %s' % cls_name(rc), node=r)
     return n
+
+
+# parameters defaulting to None / _MISSING that the pinned tree tests by truth value, each
+# confirmed harmless by reading: the replacement is an empty container / text of the same meaning
+TRUTH_TESTED_DEFAULTS = {
+    ('core.format_invocation', 'kwargs'): 'an empty mapping is replaced by an empty dict that is only iterated',
+    ('core.Spec.__init__', 'scope'): 'an empty mapping is replaced by an empty dict that is only read (scope.update)',
+    ('core.format_target_spec_trace.mk_fmt', 't'): 'a line prefix: the empty string is never passed',
+}
+
+
+def absent_means_none(ctx, modules, classes=None):
+    """a parameter whose default is None / _MISSING stands for "not given"; whether it was given is
+    decided by identity (``p is None``), never by truth value: a falsy argument (0, '', (), {},
+    an empty spec, a callable object with __len__ == 0) is an argument"""
+    p = ctx.program
+    n = 0
+    for u in p.package_units():
+        if u.is_lambda or u.module.short not in modules:
+            continue
+        if classes is not None:
+            top = u
+            while top.parent is not None:
+                top = top.parent
+            if top.cls is None or top.cls.name not in classes:
+                continue
+        a = u.node.args
+        allp = [x.arg for x in a.posonlyargs + a.args]
+        nd = len(a.defaults)
+        dfl = dict(zip(allp[len(allp) - nd:], a.defaults)) if nd else {}
+        for k, d in zip(a.kwonlyargs, a.kw_defaults):
+            if d is not None:
+                dfl[k.arg] = d
+        absent = [k for k, d in dfl.items() if (isinstance(d, ast.Constant) and d.value is None)
+                  or (isinstance(d, ast.Name) and d.id == '_MISSING')]
+        if not absent:
+            continue
+        rebound = {x.id for x in u.own_nodes() if isinstance(x, ast.Name) and isinstance(x.ctx, ast.Store)}
+        truth = {}
+        for x in u.own_nodes():
+            tests = []
+            if isinstance(x, (ast.If, ast.IfExp, ast.While)):
+                tests.append(x.test)
+            elif isinstance(x, ast.BoolOp):
+                tests += x.values[:-1]
+            elif isinstance(x, ast.Assert):
+                tests.append(x.test)
+            for t in tests:
+                for y in (t.values if isinstance(t, ast.BoolOp) else [t]):
+                    z = y.operand if isinstance(y, ast.UnaryOp) and isinstance(y.op, ast.Not) else y
+                    if isinstance(z, ast.Name) and z.id in absent:
+                        truth.setdefault(z.id, []).append(x)
+        for prm in absent:
+            n += 1
+            hits = truth.get(prm, [])
+            # a parameter first normalised by an identity test (``if p is None: p = D``) may be
+            # truth-tested afterwards: it no longer stands for "not given"
+            normalised = prm in rebound and any(
+                isinstance(x, ast.If) and isinstance(x.test, ast.Compare) and is_name(x.test.left, prm)
+                and isinstance(x.test.ops[0], (ast.Is, ast.IsNot)) for x in u.own_nodes())
+            ok = not hits or normalised or (u.qualname, prm) in TRUTH_TESTED_DEFAULTS
+            ctx.ob(ok, u, 'whether %s was given is decided by identity, not by truth value' % prm,
+                   '' if ok else 'a falsy %s is taken for a missing one: %s' % (prm, [norm(h)[:60] for h in hits]),
+                   node=hits[0] if hits else None)
+    ctx.require(n >= 1, 'no optional parameters found in %s' % (modules,))
+    return n
+
+
+# a parameter a constructor converts before storing it: (unit, parameter) -> (why, the only
+# operations the conversion may apply).  Everything else is stored as given.
+PARAMETER_CONVERSIONS = {
+    ('core.Path.startswith', 'other'): ('text / Path are compared as their T expression', {'Path'}),
+    ('core.TargetRegistry._register_fuzzy_type', '_type_tree'): ('the op\'s own tree unless a subtree is given', {'OrderedDict'}),
+    ('core.TargetRegistry.register_op', 'auto_func'): ('no discovery function: nothing is supported', set()),
+    ('grouping.Limit.__init__', 'subspec'): ('the default subspec collects the items', set()),
+    ('matching.Switch.__init__', 'cases'): ('a dict of cases is its item list, in the order written', {'list', 'items'}),
+    ('matching.Check.glomit', 'target'): ('the checked value is the spec\'s result', None),
+    ('mutation.Assign.__init__', 'path'): ('text / T are addressed as a Path', {'Path', 'from_text'}),
+    ('mutation.Delete.__init__', 'path'): ('text / T are addressed as a Path', {'Path', 'from_text'}),
+    ('reduction.Fold.glomit', 'target'): ('the folded value is the subspec\'s result', None),
+    ('reduction.Flatten.__init__', 'init'): ('the default accumulator is a list', set()),
+    ('reduction.Merge.__init__', 'op'): ('an op name is looked up on the accumulator\'s type', {'getattr', 'type', 'init'}),
+}
+
+
+def parameters_kept(ctx, modules, classes=None, methods=None):
+    """what a constructor (or a T producer) stores / records is what it was given: a parameter
+    is never rebound before it is used, except to replace a missing argument (``if p is None:
+    p = D``) or through one of the enumerated conversions, each limited to the operations it
+    names.  A "tidy" rewrite of an argument (splicing nested pipelines, unwrapping nested errors,
+    stripping a trailing underscore, re-ordering cases) changes what the spec means."""
+    p = ctx.program
+    n = 0
+    for u in p.package_units():
+        if u.is_lambda or u.module.short not in modules or u.cls is None:
+            continue
+        if classes is not None and u.cls.name not in classes:
+            continue
+        if methods is not None and u.name not in methods:
+            continue
+        params = set(u.params[1:]) | ({u.vararg} if u.vararg else set()) | ({u.kwarg} if u.kwarg else set())
+        if not params:
+            continue
+        cfg = None
+        for x in u.own_nodes():
+            if not (isinstance(x, ast.Name) and isinstance(x.ctx, ast.Store) and x.id in params):
+                continue
+            st = [a for a in ancestors(x) if isinstance(a, ast.stmt)][0]
+            n += 1
+            prm = x.id
+            conv = PARAMETER_CONVERSIONS.get((u.qualname, prm))
+            # replacing a missing argument: guarded by an identity test on the parameter itself
+            guarded = False
+            for a in ancestors(st):
+                if isinstance(a, ast.If) and isinstance(a.test, ast.Compare) and is_name(a.test.left, prm) \
+                        and len(a.test.ops) == 1 and isinstance(a.test.ops[0], ast.Is) \
+                        and (isinstance(a.test.comparators[0], ast.Constant) and a.test.comparators[0].value is None
+                             or is_name(a.test.comparators[0], '_MISSING')) and st in a.body:
+                    guarded = True
+            ok = guarded
+            why = 'replaces a missing argument'
+            if not ok and conv is not None:
+                reason, allowed = conv
+                why = reason
+                if allowed is None:
+                    ok = True
+                else:
+                    val = st.value if isinstance(st, (ast.Assign, ast.AugAssign, ast.AnnAssign)) else None
+                    used = set()
+                    for c in ast.walk(val) if val is not None else ():
+                        if isinstance(c, ast.Call):
+                            used.add(c.func.id if isinstance(c.func, ast.Name) else c.func.attr if isinstance(c.func, ast.Attribute) else '?')
+                    ok = isinstance(st, ast.Assign) and used <= allowed
+                    if not ok:
+                        why = '%s -- but the conversion applies %s' % (reason, sorted(used - allowed))
+            ctx.ob(ok, u, 'parameter %s is rebound only as documented: %s' % (prm, norm(st)[:70]),
+                   why if ok else ('%s changes what was given' % norm(st)[:90] if conv is None else why), node=st)
+    return n
+
+
+def recorded_as_given(ctx):
+    """every T producer records its operand exactly as received (the replay applies the recorded
+    value): the argument handed to the op-tuple writer is the method's own parameter, or a
+    display / concatenation of parameters and constants, never a value recomputed from it"""
+    p = ctx.program
+    c = ctx.cls('core.TType')
+    n = 0
+    for name, u in sorted(c.methods.items()):
+        params = set(u.params[1:]) | ({u.vararg} if u.vararg else set()) | ({u.kwarg} if u.kwarg else set())
+        for call in calls_in(u):
+            if callee_qual(p, u, call) != 'core._t_child' or len(call.args) < 3:
+                continue
+            n += 1
+            a = call.args[2]
+
+            def plain(e):
+                if isinstance(e, ast.Constant):
+                    return True
+                if isinstance(e, ast.Name):
+                    return e.id in params
+                if isinstance(e, ast.Tuple):
+                    return all(plain(x) for x in e.elts)
+                if isinstance(e, ast.BinOp) and isinstance(e.op, ast.Add):
+                    return plain(e.left) and plain(e.right)
+                return False
+            rebound = [x.id for x in u.own_nodes() if isinstance(x, ast.Name) and isinstance(x.ctx, ast.Store) and x.id in params]
+            ok = plain(a) and not rebound
+            ctx.ob(ok, u, 'T.%s records its operand as received: %s' % (name, norm(call)[:70]),
+                   '' if ok else ('the operand is recomputed before it is recorded (%s rebound)' % rebound if rebound else 'the recorded value is not the operand itself'),
+                   node=call)
+    ctx.require(n >= 15, 'T producers not found (%d)' % n)
+    return n
